@@ -178,6 +178,11 @@ def c01_family(tier, n):
                                                      {**src(n + 1, 's2', required='snk', topics=['aux', 'main']), 'topics_at': {'2': ['main'], '1': ['main', 'aux']}},
                                                      sink('snk', ['r;main>m1' if s2 == 's2;*' else 'r', s2])]))
 
+    # the same scenarios with the filters listed in reverse (the base priority orders asc / desc are relative to the listing order, so
+    # every base order sees both arrangements)
+    for sc in [x for x in out if x['name'].startswith(('join2var/', 'join2chain/'))]:
+        out.append({**sc, 'name': sc['name'].replace('/', '-rev/', 1), 'filters': list(reversed(sc['filters']))})
+
     # rejoin with an ephemeral side consumer on the splitter
     for side in ['?', '??']:
         for b1 in ['pass', 'skip1']:
